@@ -526,6 +526,8 @@ def run(ctx: Ctx, rep: Report, tier: str) -> None:  # noqa: C901
     items_view_keeps_operands(ctx, rep)
     validated_is_returned(ctx, rep)
     operand_range(ctx, rep)
+    views_leave_judgement_to_reader(ctx, rep)
+    codec_skips_nothing(ctx, rep)
     rep.rule("R08.5")
     for nm in ("items", "ports", "sport", "protocol"):
         st = port.lookup_setter(nm)
@@ -548,6 +550,75 @@ def run(ctx: Ctx, rep: Report, tier: str) -> None:  # noqa: C901
             rep.ok(f"Port.{nm} setter", "every normal path re-enters the line setter (directly or through another view)", where=where(st))
         else:
             rep.violation(st.qualname, "normal path without self.line = ...", "a writable view can return without rebuilding the other views from text", where(st))
+
+
+def views_leave_judgement_to_reader(ctx: Ctx, rep: Report, rid: str = "R08.11") -> None:
+    """A writable view (items, ports, sport) checks the TYPE of what it is given and hands the rest to the line setter:
+    any other refusal in the view is a refusal the reader does not know - `p.ports = p.ports` can then raise for a port
+    the object holds."""
+    from .normalise import normalised
+
+    rep.rule(rid)
+    port = ctx.cls("Port")
+    n = 0
+    for nm in ("items", "ports", "sport"):
+        st0 = port.lookup_setter(nm)
+        if st0 is None:
+            continue
+        st = normalised(ctx, st0, "calls,tailcalls")
+        cfg = ctx.cfg(st)
+        for r in [x for x in cfg.live if x.kind == "stmt" and isinstance(x.ast, ast.Raise)]:
+            n += 1
+            rep.instance()
+            exc = r.ast.exc
+            name = src(exc.func) if isinstance(exc, ast.Call) else src(exc) if exc is not None else ""
+            deps = [c for c, _lab in cfg.transitive_control_deps(r) if c.kind == "cond"]
+            type_check = name == "TypeError" and deps and all(isinstance(c.ast, ast.Call) and src(c.ast.func) == "isinstance" for c in deps)
+            if type_check:
+                rep.ok(f"Port.{nm} setter: {snippet(r.ast, 40)}", "a type check", where=where(st0, r.ast))
+            else:
+                rep.violation(st0.qualname, snippet(r.ast, 60) + (" under " + snippet(deps[0].ast, 40) if deps else ""), "the view refuses a value on grounds of its own: the reader (the line setter) has no such rule, so a port set the object holds and renders can be refused when it is written back through this view", where(st0, r.ast), inp="p = Port('eq 1 2 3 4 5 6 7 8 9 10', protocol='tcp'); p.ports = p.ports")
+    rep.floor(2, "raise statements of the writable views") if n else None
+
+
+def codec_skips_nothing(ctx: Ctx, rep: Report, rid: str = "R08.12") -> None:
+    """The range-string reader takes every well-formed piece: in `string_to_ports` a piece 'a-b' of two numbers is added
+    to the ranges on every path, and `_port_range_min_max` turns every range it is given into exactly one interval
+    (a piece skipped because of its width, or because of pieces seen before, is a port set that is not read back)."""
+    from .common import loop_body_paths
+
+    rep.rule(rid)
+    n = 0
+    for q in ("helpers.string_to_ports", "helpers._port_range_min_max"):
+        f = ctx.prog.find_func(q)
+        if f is None:
+            continue
+        cfg = ctx.cfg(f)
+        for lp in [x for x in cfg.live if x.kind == "for" and isinstance(x.ast.target, ast.Name)]:
+            var = lp.ast.target.id
+            grows = [x for b in lp.ast.body for x in ast.walk(b) if isinstance(x, ast.Call) and isinstance(x.func, ast.Attribute) and x.func.attr in ("add", "append") and isinstance(x.func.value, ast.Name)]
+            if not grows:
+                continue
+            n += 1
+            rep.instance()
+            bad = None
+            for path in loop_body_paths(cfg, lp):
+                if path[-1][0] is not lp:
+                    continue
+                placed = any(nd.kind == "stmt" and nd.ast is not None and any(isinstance(x, ast.Call) and isinstance(x.func, ast.Attribute) and x.func.attr in ("add", "append") for x in ast.walk(nd.ast)) for nd, _ in path)
+                if placed:
+                    continue
+                atoms = [(nd.ast, lab == "T") for nd, lab in path if nd.kind == "cond" and lab in ("T", "F")]
+                ill_formed = any((not tr) and ((isinstance(t, ast.Compare) and "len(" in src(t)) or (isinstance(t, ast.Call) and isinstance(t.func, ast.Attribute) and t.func.attr == "isdigit")) for t, tr in atoms)
+                if not ill_formed:
+                    bad = atoms
+                    break
+            if bad is not None:
+                held = "; ".join(f"{snippet(t, 40)}{'' if tr else ' (false)'}" for t, tr in bad) or "unconditionally"
+                rep.violation(q, f"for {var} in {snippet(lp.ast.iter, 20)}: skipped under [{held}]", "a well-formed piece of the range string is passed over: the ports it stands for are missing from the set that is read back", where(f, lp.ast), inp="'1-79,81-65535' / '1-65535'")
+            else:
+                rep.ok(f"{q}: for {var} in {snippet(lp.ast.iter, 20)}", "a piece is passed over only when it is not two numbers", where=where(f, lp.ast))
+    rep.floor(2, "piece loops of the range-string reader") if n else None
 
 
 def validated_is_returned(ctx: Ctx, rep: Report, rid: str = "R08.1b") -> None:
